@@ -374,7 +374,8 @@ void fp_prime_set_dense(const bn_t p) {
 void fp_prime_set_pairf(const bn_t x, int pairf) {
 	bn_t p, t0, t1;
 	ctx_t *ctx = core_get();
-	size_t len = bn_bits(x) + 1;
+	/* Capacity of s, bn_rec_naf refuses parameters that do not fit. */
+	size_t len = RLC_FP_BITS + 1;
 	int8_t s[RLC_FP_BITS + 1];
 
 	bn_null(p);
@@ -646,6 +647,9 @@ void fp_prime_set_pairf(const bn_t x, int pairf) {
 				bn_mul(t1, t1, t0);
 				bn_add(p, p, t1);
 				fp_prime_set_dense(p);
+				break;
+			default:
+				RLC_THROW(ERR_NO_VALID);
 				break;
 		}
 
